@@ -126,4 +126,36 @@ def facade {α : Type} (component : Option (Unit → Except String α)) : Except
 theorem facade_delegates {α : Type} (f : Unit → Except String α) : facade (some f) = f () := rfl
 theorem facade_missing {α : Type} : ∃ e, facade (none : Option (Unit → Except String α)) = .error e := ⟨_, rfl⟩
 
+/-- the if-chain of `slotIndexOf` is the table `slotIndexTable` read in order (the table is what the source's switch is
+    compared with on every run) -/
+theorem slotIndexOf_eq_table (p : SlotPaths) (field : String) : slotIndexOf p field = slotIndexByTable p field := by
+  have hA : getField p "IndexAPath" = p.indexA := by simp [getField]
+  have hB : getField p "IndexBPath" = p.indexB := by simp [getField]
+  have hC : getField p "ValueAPath" = p.valueA := by simp [getField]
+  have hD : getField p "ValueBPath" = p.valueB := by simp [getField]
+  unfold slotIndexOf slotIndexByTable slotIndexTable
+  simp only [List.find?, hA, hB, hC, hD]
+  by_cases h1 : field = p.indexA
+  · simp only [h1, if_true, decide_true]
+  · simp only [h1, if_false, decide_false]
+    by_cases h2 : field = p.indexB
+    · simp only [h2, if_true, decide_true]
+    · simp only [h2, if_false, decide_false]
+      by_cases h3 : field = p.valueA
+      · simp only [h3, if_true, decide_true]
+      · simp only [h3, if_false, decide_false]
+        by_cases h4 : field = p.valueB
+        · simp only [h4, if_true, decide_true]
+        · simp only [h4, if_false, decide_false]
+
+/-- the four keys set exactly their field and nothing else -/
+theorem setField_getField (p : SlotPaths) (v : String) :
+    ∀ kf ∈ serKeyTable, getField (setField p kf.2 v) kf.2 = v ∧
+      ∀ kf' ∈ serKeyTable, kf'.2 ≠ kf.2 → getField (setField p kf.2 v) kf'.2 = getField p kf'.2 := by
+  intro kf hkf
+  simp only [serKeyTable, List.mem_cons, List.not_mem_nil, or_false] at hkf
+  rcases hkf with rfl | rfl | rfl | rfl <;> refine ⟨by simp [getField, setField], ?_⟩ <;> intro kf' hkf' hne <;>
+    simp only [serKeyTable, List.mem_cons, List.not_mem_nil, or_false] at hkf' <;>
+    rcases hkf' with rfl | rfl | rfl | rfl <;> simp_all [getField, setField]
+
 end Gsp.Props.C17
